@@ -60,6 +60,21 @@ template <typename CharT, typename SizeT>
     return dest;
 }
 
+/// Three-way comparison of two code units like the C library: one-byte character
+/// types are compared as unsigned char, wider ones by value (no subtraction, which
+/// has the wrong sign for plain char >= 0x80 and overflows for wchar_t).
+template <typename CharT>
+[[nodiscard]] constexpr auto compare_units(CharT lhs, CharT rhs) noexcept -> int
+{
+    if constexpr (sizeof(CharT) == 1) {
+        auto const l = static_cast<unsigned char>(lhs);
+        auto const r = static_cast<unsigned char>(rhs);
+        return l < r ? -1 : (r < l ? 1 : 0);
+    } else {
+        return lhs < rhs ? -1 : (rhs < lhs ? 1 : 0);
+    }
+}
+
 template <typename CharT>
 [[nodiscard]] constexpr auto strcmp(CharT const* lhs, CharT const* rhs) -> int
 {
@@ -68,7 +83,7 @@ template <typename CharT>
             break;
         }
     }
-    return static_cast<int>(*lhs) - static_cast<int>(*rhs);
+    return compare_units(*lhs, *rhs);
 }
 
 template <typename CharT, typename SizeT>
@@ -82,7 +97,7 @@ template <typename CharT, typename SizeT>
         u1 = static_cast<CharT>(*lhs++);
         u2 = static_cast<CharT>(*rhs++);
         if (u1 != u2) {
-            return static_cast<int>(u1 - u2);
+            return compare_units(u1, u2);
         }
         if (u1 == CharT(0)) {
             return 0;
